@@ -83,6 +83,14 @@ def build(fcp, outdir, sanitize=False):
     if p.returncode != 0:
         err = [l for l in p.stderr.split("\n") if "error" in l]
         return "compile-error", "generated header does not compile: " + (err[0] if err else p.stderr[:400])
+    # the per-protocol headers are meant to be included on their own
+    for h in sorted(n for n in files if n.startswith("fcp_") and n.endswith(".h")):
+        with open(os.path.join(outdir, "one_header.cpp"), "w") as f:
+            f.write('#include "%s"\n' % h)
+        p = subprocess.run(CXX + ["-fsyntax-only", "-I", ".", "one_header.cpp"], cwd=outdir, capture_output=True, text=True)
+        if p.returncode != 0:
+            err = [l for l in p.stderr.split("\n") if "error" in l]
+            return "compile-error", "%s does not compile on its own: %s" % (h, err[0] if err else p.stderr[:400])
     # bound the cache
     ents = sorted((os.path.getmtime(os.path.join(CACHE, e)), e) for e in os.listdir(CACHE))
     while len(ents) > 60:
